@@ -894,6 +894,30 @@ func runC14(args []string) error {
 			observedGroups[g.Name] = obs
 		}
 	}
+	// ---- word-size dependent constants: the platform-independent files against the truth of a 32-bit platform
+	// (decided on the tables and go/types for linux/386; nothing is run on a 386 host)
+	wsGroups, err := bindWordsize(col)
+	if err != nil {
+		return err
+	}
+	for _, g := range wsGroups {
+		for _, f := range g.Files {
+			for _, r := range f.Rows {
+				sm.Evaluations++
+				sm.RefComparisons++
+				sm.count("wordsize-row")
+				okText, want := c14TextRef(col, g, f, r)
+				input := map[string]any{"file": fmt.Sprintf("%s:%d", r.File, r.Line), "table": r.Key, "name": r.Name, "bound": c14Short(r.Text), "group": g.Name}
+				sm.CaseIndex[fmt.Sprint(r.ID)] = input
+				if !okText {
+					sm.RefMismatches = append(sm.RefMismatches, refMismatch{ID: r.ID, Region: bindWordsizeRegion, Input: input, Impl: c14Short(r.Text), Ref: c14Short(want),
+						Note: "platform-independent binding file against go/types on $GOROOT/src for linux/386 (the host truth differs); decided on the table, not run on a 386 host"})
+				} else {
+					sm.HarnessViolations = append(sm.HarnessViolations, refMismatch{ID: r.ID, Input: input, Impl: "row accepted", Ref: "a row emitted because the 386 truth differs from the host truth cannot fit both"})
+				}
+			}
+		}
+	}
 	// entries of the compiled tables that no row accounts for
 	for dir, tab := range map[string]map[string]map[string]reflect.Value{"stdlib": stdlib.Symbols, "stdlib/syscall": ysyscall.Symbols,
 		"stdlib/unrestricted": yunrestricted.Symbols, "stdlib/unsafe": yunsafe.Symbols} {
